@@ -226,6 +226,10 @@ def schedule(harnesses, tier, jobs, batch_size):
         q.put((b, cap * mult))
     results = {}
     lock = threading.Lock()
+    # admission control on declared memory: the sum of the running batches' `mem` stays under the budget
+    budget = int(os.environ.get("VERIF_MEM_BUDGET_GB", "52"))
+    in_use = [0]
+    cv = threading.Condition()
 
     def worker(widx):
         while True:
@@ -233,7 +237,17 @@ def schedule(harnesses, tier, jobs, batch_size):
                 b, cap = q.get_nowait()
             except queue.Empty:
                 return
-            r = run_batch(widx, b, cap, tier)
+            need = min(budget, max(h.mem for h in b))
+            with cv:
+                while in_use[0] + need > budget:
+                    cv.wait(timeout=5)
+                in_use[0] += need
+            try:
+                r = run_batch(widx, b, cap, tier)
+            finally:
+                with cv:
+                    in_use[0] -= need
+                    cv.notify_all()
             with lock:
                 results.update(r)
                 for h in b:
